@@ -28,7 +28,7 @@ PROPS["C11"].update({
 NOT_APPLICABLE = {}
 
 # verif-guarded hook commits in /repo (add-only)
-HOOK_COMMITS = ["fd0e965", "d11cf72", "46739fb"]
+HOOK_COMMITS = ["fd0e965", "d11cf72", "46739fb", "981ad0e", "643526d"]
 
 PROPS["C09"] = {
     "modules": ["OxiaVerif.Props.C09", "OxiaVerif.Props.C09OnTree"],
@@ -117,13 +117,29 @@ PROPS["C16"] = {
 }
 PROPS["C17"] = {
     "modules": ["OxiaVerif.Props.C17"],
-    "facts": ["processWriteSingleBatchCommit"],
+    "facts": ["processWriteSingleBatchCommit", "notificationsTrimUpperBoundIsTrimOffsetPlusOne", "notificationsStartAtCommitOffset"],
     "trusted_base": [KERNEL, EXTRACT, CORR, DBTRUST],
-    "assumptions": ["delivery order/resumption across reconnects (readNotifications) relies on the order embedding of %016x offset keys: correspondence-checked, not proved",
+    "assumptions": ["the leader's dispatch goroutine and the position of a new subscriber (commit offset, not head) are tied by a regenerated fact, not executed; the trimmer is run synchronously with an injected clock (its race with concurrent commits is covered only by the fact about the deleted key range)",
+                    "keys are valid UTF-8 in the trimming programs: the trimmer decodes batches with the validating protobuf decoder and skips trimming forever once a batch holds another key (observation, not a loss)",
+                    "delivery order/resumption across reconnects (readNotifications) relies on the order embedding of %016x offset keys: correspondence-checked, not proved",
                     "retention-time trimming (wall clock) and the leader's dispatch goroutines are not modelled"],
     "rule": DBRULE + ", with subscribers (re)connecting at every offset at the end of each program. Oracle: the expected batch of every committed request is recomputed in Go from request + response (created/modified with resulting version id, deleted, range-deleted, last operation per key wins, internal keys filtered); each read must return exactly the batches with offset >= start, ascending. Non-trivial = a read returning at least two batches, one non-empty.",
     "level_text": "Machine-checked proof (Lean 4), for every sorted store and every request: a committed request with notifications enabled stores exactly one batch (its offset, its timestamp) under its own offset key in the same commit as the commit offset (sortedness of the store is preserved by every batch operation); a failed request stores nothing; internal keys never appear; one notification per key; a successful put is announced with its resulting version id as created/modified. Tied to db.go/notifications_tracker.go by differential runs including every stored batch.",
     "level_note": "Trusted: Lean kernel; extractor rule (single commit); " + DBTRUST + ". Partial: ascending delivery and resumption are oracle-checked on the implementation.",
     "technique": "Lean 4 proof (ordered-map lemmas, invariant preservation over batch operations) + regenerated fact + differential correspondence with recomputed-batch oracle",
     "design_ref": "DESIGN.md section 6 C17",
+}
+
+PROPS["C18"] = {
+    "modules": ["OxiaVerif.Props.C18"],
+    "facts": ["assignmentsPublishAllButDeleting", "generateShardsShape32", "applyClusterChangesSkipsFailedShards"],
+    "trusted_base": [KERNEL, EXTRACT, CORR, "the hash function (xxh3) is a parameter: client and server use the same published ranges, only the client hashes keys",
+                     "computeNewAssignments is tied by a regenerated fact about its filter (the harness applies the documented rule to the real status), not executed in-process"],
+    "assumptions": ["the ensemble supplier does not fail (known finding D-20 otherwise)", "1 <= shard count <= 65536 (known finding D-19 above)",
+                    "a shard id's hash range never changes (no split/merge), which the status theorem itself guarantees on the coordinator side"],
+    "rule": "GenerateShards for every count 1..1024 (quick) / 1..4096 (thorough) and sampled counts up to 200000; sequences of cluster-config changes (add/remove up to 6 namespaces, 1-5 shards, 1-4 servers, failing ensemble selection in a quarter of the sequences) through the real ApplyClusterChanges; client tables fed with streams of assignment messages (new generations with fewer/more shards, overlapping id ranges, repeated messages) through the real shardManagerImpl.update/Get with an injected hash. Oracle: partition recomputed in Go, table == published partition after an update, every hash code routed to exactly one shard. Non-trivial = more than one shard / a namespace removal / at least two client updates.",
+    "level_text": "Machine-checked proof (Lean 4): GenerateShards yields a partition of [0,2^32) with ids base..base+n-1 for every n in 1..65536 (uint32 arithmetic explicit; arithmetic witness of the wrap at 65537); every hash code is contained in exactly one shard of a partition and the client's Get is independent of map iteration order; for any sequence of configuration changes shard ids are unique, below a never-decreasing generator (never reused) and every namespace is either wholly deleting or publishes a partition (supplier total, counts in range); after applying an assignment message that is a partition the client's table equals it as a set, so stale shards are evicted and routing agrees with the published map. Tied to shards.go, cluster_updates.go and shard_manager.go by differential runs.",
+    "level_note": "Trusted: Lean kernel; extractor rules (assignment filter, GenerateShards shape); harness + driver; hash function as a parameter. Known findings: D-19 (>65536 shards), D-20 (failed ensemble selection leaves a hole).",
+    "technique": "Lean 4 proof (division arithmetic, induction over ranges / config sequences / update streams) + regenerated facts + differential correspondence",
+    "design_ref": "DESIGN.md section 6 C18",
 }
